@@ -76,12 +76,8 @@ int poll(struct pollfd *fds, nfds_t nfds, int timeout)
 #define XV_STEP_FAILED { xv_fail_n++; xv_fail_errno = xv_errno; \
                          if (XT->ip_idx == xv_ai) { xv_att_failed++; xv_att_errno = xv_errno; } }
 
-#define XV_ATT_ASSIGNS xv_att_begun, xv_att_failed, xv_att_errno, xv_att_conn, xv_att_conn_rc, xv_att_conn_errno, xv_att_conn_fd, xv_att_conn_src
-#define XV_FAIL_ASSIGNS xv_fail_n, xv_fail_errno
-#define XV_PRE_ASSIGNS xv_pre_eff_fd, xv_pre_bind_fd
-#define XV_BINDW_ASSIGNS XV_BIND_ASSIGNS, XV_FAIL_ASSIGNS, XV_PRE_ASSIGNS, xv_att_failed, xv_att_errno
-#define XV_CONNW_ASSIGNS XV_CONNECT_ASSIGNS, XV_FAIL_ASSIGNS, XV_PRE_ASSIGNS, XV_ATT_ASSIGNS, xv_conn_n, xv_conn_idx, xv_conn_fd, xv_conn_rc, xv_conn_errno, \
-                         xv_disc_n, xv_disc_fd, xv_unprepared, xv_unbound, xv_wrong_addr, xv_unregistered
+#define XV_BINDW_ASSIGNS XV_BIND_ASSIGNS, xv_fail, xv_pre, xv_arow
+#define XV_CONNW_ASSIGNS XV_CONNECT_ASSIGNS, xv_fail, xv_pre, xv_arow, xv_conn
 
 /* TRUSTED(kernel) bind(2) = env/fd.h's model + log: a successful bind of the address tp_ip_to_sockaddr last built from
  * (track->local_ip, track->local_port) marks the descriptor as "bound to the configured local address" */
